@@ -76,7 +76,9 @@ class LoggedTest(unittest.TestCase):
         _log('test', self._selw_name)
 
     def id(self):
-        return self._selw_name
+        # deliberately NOT the string the --test filter sees (str(test)): a runner that also consults id() -- or only
+        # id() -- selects differently, and the difference is visible to the patterns of the oracles
+        return 'selwid.' + self._selw_name.swapcase()
 
     def __str__(self):
         return self._selw_name
